@@ -29,7 +29,7 @@ m = {
         "add_only": True,
     },
     "engines": [
-        {"name": "kani-cbmc", "path": "bin/check", "serves_properties": sorted(props.PROPS.keys()),
+        {"name": "kani-cbmc", "path": "bin/check", "serves_properties": sorted(k for k, v in props.PROPS.items() if v.get("ready", True)),
          "kind_free_text": "bounded model checking of the compiled Rust code (Kani 0.68 -> GOTO -> CBMC 6.11 / CaDiCaL), "
                            "native replay of counterexamples"},
     ],
@@ -39,7 +39,7 @@ m = {
     "not_applicable": [],
 }
 for pid in ALL:
-    if pid in props.PROPS:
+    if pid in props.PROPS and props.PROPS[pid].get("ready", True):
         P = props.PROPS[pid]
         m["checks"].append({
             "property_id": pid,
